@@ -421,6 +421,53 @@ int main(int argc, char **argv) {
     if (!r.complete) rep.caps.push_back("svc: deadline reached");
   }
 
+  // ================= family: filein — READ from streams >= 256 is served from the file simin<(stream>>8)&7> in the working directory
+  {
+    phase(ctx, "filein");
+    struct FI { uint32_t stream; std::string content; int reads; };
+    std::vector<FI> cases;
+    for (uint32_t s : {256u, 300u, 511u, 512u, 1024u, 0x700u, 0x7FFu, 0x800u, 0x10100u}) for (std::string c : {std::string(""), std::string("A"), std::string("\x80\xff\x00Z", 4), std::string("<missing>")}) for (int r : {1, 2, 5}) cases.push_back({s, c, r});
+    auto body = [&](uint64_t b, uint64_t e, const std::set<uint64_t> &skip, Stats &st, volatile uint64_t *cur) {
+      std::string dir = ctx.scratch + "/fi" + std::to_string(b); mkdir(dir.c_str(), 0755); if (chdir(dir.c_str())) exit(3);
+      for (uint64_t i = b; i < e; i++) {
+        *cur = i; if (skip.count(i)) continue;
+        const FI &c = cases[i]; int ix = (c.stream >> 8) & 7;
+        for (int n = 0; n < 8; n++) unlink(("simin" + std::to_string(n)).c_str());
+        if (c.content != "<missing>") spit("simin" + std::to_string(ix), c.content);
+        // program: sp = 1000; repeat { mem[sp+2] = stream; READ; areg = mem[sp+1]; accumulate into mem[50+k] }, then exit(last)
+        Machine ref; Env env; env.fileInput = true; if (c.content != "<missing>") env.inFiles[ix] = c.content;
+        simh::Sim sim; sim.calibrate(); sim.create();
+        auto poke = [&](uint32_t a, uint32_t v) { ref.mem[a] = v; sim.v.mem[a] = v; };
+        poke(1, 1000); poke(1002, c.stream);
+        // code at byte 8: (LDAC 2; OPR SVC; LDAM 1001 -> needs prefixes) keep it simple: r times [LDAC 2; SVC], then LDBM 1; LDAI... use direct words
+        std::string code; for (int k = 0; k < c.reads; k++) { code += "\x32\xD3"; }          // LDAC 2 ; OPR SVC
+        code += "\xE3\xEE\x09";                                                         // PFIX 3; PFIX E; LDAM 9  => areg = mem[0x3E9 = 1001]
+        code += "\xE3\xEE\x2A";                                                         // STAM 0x3EA = 1002  (exit value slot sp+2)
+        code += "\x30\xD3";                                                              // LDAC 0 ; OPR SVC (exit)
+        for (size_t k = 0; k < code.size(); k++) { uint32_t a = 2 + k / 4; uint32_t v = ref.mem[a]; v |= (uint32_t)(uint8_t)code[k] << (8 * (k % 4)); poke(a, v); }
+        ref.pc = 8; *sim.v.pc = 8;
+        std::string res; int steps = 0;
+        while (!env.exited && steps < 100) {
+          if (ref.classify(false) != refisa::DEFINED && ref.classify(false) != refisa::NEED_INPUT_STREAM) { res = "harness: program left the defined range"; break; }
+          ref.step(env); int kind; std::string err; int rv = sim.step(&kind, &err); steps++;
+          if (kind) { res = "hexsim threw: " + err; break; }
+          if (ref.pc != *sim.v.pc || ref.areg != *sim.v.areg || ref.breg != *sim.v.breg || ref.oreg != *sim.v.oreg) { res = "registers differ after step " + std::to_string(steps); break; }
+          if (ref.mem[1001] != sim.v.mem[1001]) { res = "byte read from simin" + std::to_string(ix) + ": reference " + std::to_string(ref.mem[1001]) + " hexsim " + std::to_string(sim.v.mem[1001]) + " (read " + std::to_string(steps / 2) + ")"; break; }
+          if (env.exited && (uint32_t)rv != env.exitValue) { res = "exit value differs"; break; }
+        }
+        st.add("filein_cases"); st.add("filein_steps", steps);
+        if (res.empty() && sim.ib.consumed() != 0) res = "standard input consumed by a read from a file stream";
+        if (!res.empty()) st.violation("filein:read", i, Obj().kv("family", "filein").kv("stream", c.stream).kv("file_hex", hexs(c.content)).kv("reads", c.reads).kv("what", res).str());
+      }
+      for (int n = 0; n < 8; n++) unlink(("simin" + std::to_string(n)).c_str());
+      if (chdir(ctx.scratch.c_str())) exit(3);
+      rmdir(dir.c_str());
+    };
+    auto r = run_chunks(ctx, "filein", cases.size(), 16, body, [&](uint64_t i) { return Obj().kv("family", "filein").kv("stream", cases[i].stream).str(); }, 60);
+    rep.st.merge(r.stats);
+    if (!r.complete) rep.caps.push_back("filein: deadline");
+  }
+
   // ================= family: whole (uninterrupted runs): every byte sequence of length <= L at address 0 is executed by ONE call of
   // Processor::run() for exactly as many instructions as the reference finds defined, and the final state is compared.  This is the
   // family that sees state a single call keeps across instructions (anything the step-by-step families reset by re-entering run()).
@@ -602,7 +649,7 @@ int main(int argc, char **argv) {
   auto &c = rep.st.c;
   rep.states = c["dfs_states"] + c["grid_steps"] + c["svc_steps"] + c["whole_runs"];
   rep.transitions = c["dfs_transitions"] + c["grid_steps"] + c["svc_steps"] + c["runs_steps"];
-  rep.validated = c["grid_steps"] + c["svc_steps"] + c["dfs_steps"] + c["runs_steps"] + c["whole_steps"];
+  rep.validated = c["grid_steps"] + c["svc_steps"] + c["dfs_steps"] + c["runs_steps"] + c["whole_steps"] + c["filein_steps"];
   rep.evaluations = rep.validated;
   rep.nontrivial = c["grid_steps"] + c["svc_steps"] + c["dfs_states"];
   rep.rule = "grid: every (instruction byte 0..255, pc lane, oreg, areg, breg) over the corner set K (registers an opcode ignores enumerated on 2 corners), patterned memory; "
